@@ -910,13 +910,16 @@ impl Storage {
 
                 self.db
                     .iterator(mode)
+                    .take_while(|(key, _value)| key.starts_with(&key_prefix))
+                    // the args have no delimiter in the key: keys of scripts with other args
+                    // can have the same prefix, they are longer or shorter than the own ones
+                    .filter(|(key, _value)| key.len() == key_prefix_len + 17)
                     .take_while(|(key, _value)| {
-                        key.starts_with(&key_prefix)
-                            && BlockNumber::from_be_bytes(
-                                key[key_prefix_len..key_prefix_len + 8]
-                                    .try_into()
-                                    .expect("stored BlockNumber"),
-                            ) >= to_number
+                        BlockNumber::from_be_bytes(
+                            key[key_prefix_len..key_prefix_len + 8]
+                                .try_into()
+                                .expect("stored BlockNumber"),
+                        ) >= to_number
                     })
                     .for_each(|(key, value)| {
                         let block_number = BlockNumber::from_be_bytes(
